@@ -83,7 +83,7 @@ Proof.
   cbn [flat]. rewrite ?E. reflexivity.
 Qed.
 Lemma dom_all c l :
-  (fix all (l : list obj) : bool := match l with [] => true | e :: l' => dom c (p_pretty c) e && all l' end) l = forallb (dom c (p_pretty c)) l.
+  (fix all (l : list obj) : bool := match l with [] => true | e :: l' => dom c e && all l' end) l = forallb (dom c) l.
 Proof. induction l as [|? ? IH]; [reflexivity|]. cbn [forallb]. rewrite <- IH. reflexivity. Qed.
 Lemma ptrees_map c l :
   (fix ptrees (l : list obj) : list node := match l with [] => [] | e :: l' => ptree c e :: ptrees l' end) l = map (ptree c) l.
@@ -252,16 +252,16 @@ Proof. induction 1; cbn [map]; constructor; assumption. Qed.
 Lemma int_text_nat10 (k : nat) : int_text 10 (Z.of_nat k) = to_digits 10 (N.of_nat k).
 Proof. unfold int_text. replace (Z.of_nat k <? 0)%Z with false by lia. cbn [app]. f_equal. lia. Qed.
 
-Theorem flat_RT c : readable_cfg c = true -> p_pretty c = false -> forall x, dom c false x = true -> RT x (flat c x).
+Theorem flat_RT c : readable_cfg c = true -> p_pretty c = false -> forall x, dom c x = true -> RT x (flat c x).
 Proof.
   intros Hc Hp. induction x as [x Ha|xs IH|xs tl IH IHtl|xs IH|rank rows IH] using obj_ind'; intros Hd.
   - replace (flat c x) with (atom_text c x) by (destruct x; try discriminate Ha; reflexivity).
-    apply (RT_atom c false x Hc Ha). destruct x; try discriminate Ha; exact Hd.
-  - cbn [dom] in Hd. rewrite dom_all, Hp in Hd. apply andb_true_iff in Hd as [Hne Hall].
+    apply (RT_atom c x Hc Ha). destruct x; try discriminate Ha; exact Hd.
+  - cbn [dom] in Hd. rewrite dom_all in Hd. apply andb_true_iff in Hd as [Hne Hall].
     destruct xs as [|x xs]; [discriminate Hne|]. rewrite flat_list.
     apply (RT_list (x :: xs) (map (flat c) (x :: xs))); [discriminate| |apply join_sp_seq].
     apply Forall2_map_r. rewrite Forall_forall in *. intros y Hy. apply IH; [exact Hy|]. rewrite forallb_forall in Hall. apply Hall, Hy.
-  - cbn [dom] in Hd. rewrite dom_all, Hp in Hd.
+  - cbn [dom] in Hd. rewrite dom_all in Hd.
     apply andb_true_iff in Hd as [Hd Hnn]. apply andb_true_iff in Hd as [Hd Htl]. apply andb_true_iff in Hd as [Hd Hat].
     apply andb_true_iff in Hd as [Hne Hall].
     destruct xs as [|x xs]; [discriminate Hne|]. rewrite flat_dot, join_dot by discriminate.
@@ -270,17 +270,14 @@ Proof.
     apply (RT_dot (x :: xs) tl (map (flat c) (x :: xs)) (flat c tl)); [discriminate| |exact Htl'|destruct tl; try discriminate; discriminate Hnn|].
     + apply Forall2_map_r. rewrite Forall_forall in *. intros y Hy. apply IH; [exact Hy|]. rewrite forallb_forall in Hall. apply Hall, Hy.
     + cbn [map app]. apply join_sp_seq.
-  - cbn [dom] in Hd. rewrite dom_all, Hp in Hd. apply andb_true_iff in Hd as [Harr Hall]. rewrite flat_vec, Harr.
+  - cbn [dom] in Hd. rewrite dom_all in Hd. apply andb_true_iff in Hd as [Harr Hall]. rewrite flat_vec, Harr.
     destruct xs as [|x xs]; [exact RT_vec_empty|].
     apply (RT_vec (x :: xs) (map (flat c) (x :: xs))); [discriminate| |apply join_sp_seq].
     apply Forall2_map_r. rewrite Forall_forall in *. intros y Hy. apply IH; [exact Hy|]. rewrite forallb_forall in Hall. apply Hall, Hy.
-  - cbn [dom] in Hd. rewrite dom_all, Hp in Hd.
+  - cbn [dom] in Hd. rewrite dom_all in Hd.
     apply andb_true_iff in Hd as [Hd Hall]. apply andb_true_iff in Hd as [Hd Hchk]. apply andb_true_iff in Hd as [Hd Hdims].
-    apply andb_true_iff in Hd as [Hd Hhi]. apply andb_true_iff in Hd as [Hd Hlo]. apply andb_true_iff in Hd as [Hd Hrad].
-    apply andb_true_iff in Hd as [Harr Hbase].
-    rewrite flat_arr, Harr. unfold array_prefix, integer_text.
-    replace (p_radix c) with false by (destruct (p_radix c); [discriminate|reflexivity]).
-    replace (p_base c) with 10 by lia. rewrite int_text_nat10.
+    apply andb_true_iff in Hd as [Hd Hhi]. apply andb_true_iff in Hd as [Harr Hlo].
+    rewrite flat_arr, Harr. unfold array_prefix.
     destruct rows as [|x rows].
     { exfalso. unfold arr_dims_ok in Hdims. destruct rank as [|[|r]]; try lia. cbn in Hdims. discriminate. }
     rewrite <- !app_assoc.
@@ -358,23 +355,20 @@ Proof.
 Qed.
 
 Theorem pretty_RT c : readable_cfg c = true -> p_pretty c = true ->
-  forall x, dom c true x = true -> forall o cl, RT x (append_tree (p_margin c) (ptree c x) o cl).
+  forall x, dom c x = true -> forall o cl, RT x (append_tree (p_margin c) (ptree c x) o cl).
 Proof.
   intros Hc Hp. induction x as [x Ha|xs IH|xs tl IH IHtl|xs IH|rank rows IH] using obj_ind'; intros Hd o cl.
-  - (* atoms: the leaf holds the text; a symbol is written by caseName alone *)
-    assert (Hok : atom_ok c true x = true) by (destruct x; try discriminate Ha; exact Hd).
-    pose proof (RT_atom c true x Hc Ha Hok) as HRT.
-    destruct x; try discriminate Ha;
-      try (cbn [ptree]; rewrite append_leaf by (eapply RT_nonempty; exact HRT); exact HRT).
-    cbn [ptree]. cbn [atom_ok] in Hok. destruct (RT_sym c true bs Hok) as [_ Hs]. destruct (Hs eq_refl) as [E Hne].
-    rewrite append_leaf by exact Hne. rewrite <- E. exact HRT.
-  - cbn [dom] in Hd. rewrite dom_all, Hp in Hd. apply andb_true_iff in Hd as [Hne Hall].
+  - (* atoms: the leaf holds the text Printer.Append writes *)
+    assert (Hok : atom_ok c x = true) by (destruct x; try discriminate Ha; exact Hd).
+    pose proof (RT_atom c x Hc Ha Hok) as HRT.
+    destruct x; try discriminate Ha; cbn [ptree]; rewrite append_leaf by (eapply RT_nonempty; exact HRT); exact HRT.
+  - cbn [dom] in Hd. rewrite dom_all in Hd. apply andb_true_iff in Hd as [Hne Hall].
     destruct xs as [|x xs]; [discriminate Hne|]. rewrite ptree_list.
     destruct (append_tree_seq (p_margin c) (map (ptree c) (x :: xs)) (1 + length (x :: xs) + sum_sizes (map (ptree c) (x :: xs))) o cl ltac:(discriminate))
       as (ts & body & E & HS & HF).
     rewrite E. apply (RT_list (x :: xs) ts body); [discriminate| |exact HS].
     apply (elements_RT c); [|exact HF]. rewrite Forall_forall in *. intros y Hy. apply IH; [exact Hy|]. rewrite forallb_forall in Hall. apply Hall, Hy.
-  - cbn [dom] in Hd. rewrite dom_all, Hp in Hd.
+  - cbn [dom] in Hd. rewrite dom_all in Hd.
     apply andb_true_iff in Hd as [Hd Hnn]. apply andb_true_iff in Hd as [Hd Htl]. apply andb_true_iff in Hd as [Hd Hat].
     apply andb_true_iff in Hd as [Hne Hall].
     destruct xs as [|x xs]; [discriminate Hne|]. rewrite ptree_dot.
@@ -389,7 +383,7 @@ Proof.
     + apply (elements_RT c); [|exact HF1]. rewrite Forall_forall in *. intros y Hy. apply IH; [exact Hy|]. rewrite forallb_forall in Hall. apply Hall, Hy.
     + apply IHtl. destruct tl; try discriminate Hat; exact Htl.
     + destruct tl; try discriminate; discriminate Hnn.
-  - cbn [dom] in Hd. rewrite dom_all, Hp in Hd. apply andb_true_iff in Hd as [Harr Hall].
+  - cbn [dom] in Hd. rewrite dom_all in Hd. apply andb_true_iff in Hd as [Harr Hall].
     destruct xs as [|x xs].
     + cbn [ptree]. rewrite Harr. rewrite append_leaf by discriminate. exact RT_vec_empty.
     + rewrite ptree_vec, Harr. rewrite append_leaf by discriminate. unfold node_text.
@@ -398,15 +392,12 @@ Proof.
       rewrite E. change ([35] ++ [40] ++ body ++ [41]) with ([35; 40] ++ body ++ [41]).
       apply (RT_vec (x :: xs) ts body); [discriminate| |exact HS].
       apply (elements_RT c); [|exact HF]. rewrite Forall_forall in *. intros y Hy. apply IH; [exact Hy|]. rewrite forallb_forall in Hall. apply Hall, Hy.
-  - cbn [dom] in Hd. rewrite dom_all, Hp in Hd.
+  - cbn [dom] in Hd. rewrite dom_all in Hd.
     apply andb_true_iff in Hd as [Hd Hall]. apply andb_true_iff in Hd as [Hd Hchk]. apply andb_true_iff in Hd as [Hd Hdims].
-    apply andb_true_iff in Hd as [Hd Hhi]. apply andb_true_iff in Hd as [Hd Hlo]. apply andb_true_iff in Hd as [Hd Hrad].
-    apply andb_true_iff in Hd as [Harr Hbase].
+    apply andb_true_iff in Hd as [Hd Hhi]. apply andb_true_iff in Hd as [Harr Hlo].
     destruct rows as [|x rows].
     { exfalso. unfold arr_dims_ok in Hdims. destruct rank as [|[|r]]; try lia. cbn in Hdims. discriminate. }
-    rewrite ptree_arr, Harr. unfold array_prefix, integer_text.
-    replace (p_radix c) with false by (destruct (p_radix c); [discriminate|reflexivity]).
-    replace (p_base c) with 10 by lia. rewrite int_text_nat10.
+    rewrite ptree_arr, Harr. unfold array_prefix.
     rewrite append_leaf by (destruct (to_digits 10 (N.of_nat rank)); discriminate). unfold node_text.
     destruct (append_tree_seq (p_margin c) (map (ptree c) (x :: rows)) (1 + length (x :: rows) + sum_sizes (map (ptree c) (x :: rows))) 0 0 ltac:(discriminate))
       as (ts & body & E & HS & HF).
